@@ -1133,23 +1133,71 @@ theorem cyclic_buffer_int_safe {α : Type} (c : Cyclic α) (n : Nat) (log : List
   · rw [e1, if_pos]; rw [hk]; unfold inInt; omega
   · rw [e2, if_pos]; rw [hk]; unfold inInt at hi ⊢; omega
 
-/-- `igris::ring<T>::write(buf, sz)` hands the `size_t sz` to an `unsigned int`
-parameter: it is `ring_write` of the whole data IFF-side `sz < 2^32`; a request of
-`2^32 + k` elements is served as a request of `k` (model only: needs a source of
-more than 4 GiB; the return value tells the caller). -/
-theorem ring_typed_write_width {α : Type} (t : TRing α) (d : List α) (k : Nat) :
+/-- BEFORE the repair ab63e64 (round 3b; statement unchanged from round 3, now about
+`writeCOrig`): `igris::ring<T>::write(buf, sz)` handed the `size_t sz` to an `unsigned int`
+parameter: it was `ring_write` of the whole data for `sz < 2^32`; a request of
+`2^32 + k` elements was served as a request of `k`. -/
+theorem ring_typed_write_width_orig {α : Type} (t : TRing α) (d : List α) (k : Nat) :
     (d.length < 2 ^ 32 →
-      t.writeC d = (ringWrite t.r t.buf d).map fun (r', b', n) => (⟨r', b'⟩, n)) ∧
+      t.writeCOrig d = (ringWrite t.r t.buf d).map fun (r', b', n) => (⟨r', b'⟩, n)) ∧
     (k < 2 ^ 32 → d.length = 2 ^ 32 + k →
-      t.writeC d = (ringWrite t.r t.buf (d.take k)).map fun (r', b', n) => (⟨r', b'⟩, n)) := by
+      t.writeCOrig d = (ringWrite t.r t.buf (d.take k)).map fun (r', b', n) => (⟨r', b'⟩, n)) := by
   constructor
   · intro h
-    unfold TRing.writeC
+    unfold TRing.writeCOrig
     rw [Nat.mod_eq_of_lt h, List.take_of_length_le (Nat.le_refl _)]
   · intro hk hl
-    unfold TRing.writeC
+    unfold TRing.writeCOrig
     have : d.length % 2 ^ 32 = k := by omega
     rw [this]
+
+/-- ring_typed_write_width (the code AFTER the repair ab63e64: `if (sz > r.size) sz = r.size;`):
+`igris::ring<T>::write(buf, sz)` / `read(buf, sz)` for EVERY `size_t` request `sz`, also
+`sz ≥ 2^32`: on a ring that stores `q`, a `write` whose source holds the elements `d`
+(`|d| ≤ sz`: the request may be larger than what the loop ever looks at) is `ring_write`
+of `d` — it accepts `min |d| room` elements and appends exactly them; a `read` of `sz`
+is `ring_read` of `sz` — it delivers the `min sz |q|` oldest elements.  Generated with
+requests of `2^32 + k` (`writebig` / `readbig`). -/
+theorem ring_typed_write_width {α : Type} (t : TRing α) (q d : List α) (sz : Nat)
+    (h : Abs t.r t.buf q) (hd : d.length ≤ sz) :
+    t.writeC d sz = (ringWrite t.r t.buf d).map (fun (r', b', n) => (⟨r', b'⟩, n)) ∧
+    ∃ t', t.writeC d sz = some (t', min d.length (t.r.size.toNat - 1 - q.length)) ∧
+      Abs t'.r t'.buf (q ++ d.take (t.r.size.toNat - 1 - q.length)) := by
+  have hl := h.2.2.1
+  have hc := cnt_lt t.r h.1
+  have e : ringWrite t.r t.buf (d.take (min sz t.r.size.toNat)) = ringWrite t.r t.buf d := by
+    by_cases hs : d.length ≤ t.r.size.toNat
+    · rw [List.take_of_length_le (by omega)]
+    · exact writeAux_take d 0 _ h (by omega)
+  have e' : t.writeC d sz = (ringWrite t.r t.buf d).map (fun (r', b', n) => (⟨r', b'⟩, n)) := by
+    unfold TRing.writeC; rw [e]
+  refine ⟨e', ?_⟩
+  obtain ⟨r', b', ew, ha⟩ := abs_write d h
+  exact ⟨⟨r', b'⟩, by rw [e', ew]; rfl, ha.2⟩
+
+theorem ring_typed_read_width (t : TRing Byte) (q : List Byte) (sz : Nat) (h : Abs t.r t.buf q) :
+    t.readC sz = ringRead t.r t.buf sz ∧
+    ∃ r', t.readC sz = some (r', q.take sz) ∧ Abs r' t.buf (q.drop sz) := by
+  have hl := h.2.2.1
+  have hc := cnt_lt t.r h.1
+  have e : t.readC sz = ringRead t.r t.buf sz := by
+    unfold TRing.readC ringRead
+    by_cases hs : sz ≤ t.r.size.toNat
+    · rw [Nat.min_eq_left hs]
+    · rw [Nat.min_eq_right (by omega)]
+      exact readWith_past_end q [] _ _ h (by omega) (by omega)
+  refine ⟨e, ?_⟩
+  obtain ⟨r', er, ha⟩ := ring_read_delivers t.r t.buf q sz h
+  exact ⟨r', by rw [e, er], ha⟩
+
+example : Abs (TRing.mk' (0 : Byte) 3).r (TRing.mk' (0 : Byte) 3).buf [] := (TRing.mk'_abs 0 3 (by decide)).2.2
+
+/-- the request `2^32 + 1` on `ring<char>(3)` holding 3 bytes: served as 1 before the
+repair, completely now -/
+theorem ring_typed_read_width_orig_witness :
+    let t : TRing Byte := ⟨⟨3, 0, 4⟩, [1, 2, 3, 0]⟩
+    (t.readCOrig (2 ^ 32 + 1)).map (·.2) = some [1] ∧ (t.readC (2 ^ 32 + 1)).map (·.2) = some [1, 2, 3] := by
+  decide
 
 example : inInt (0 : Int) := by decide
 
